@@ -428,6 +428,58 @@ def _cp_spec(cfg, i, path):
     return sql.count('?') == len(cfg['paths']) and tuple(args) == tuple(want)
 
 
+
+# ------------------------------------------------------------------ SQLite: a value bound as a parameter and the same value written as an inline literal denote the same database value
+import datetime as _dt, decimal as _dec
+PARAM_VALUES = {
+    'bool': [True, False], 'int': [0, 1, -7, 2 ** 40], 'float': [0.0, 1.5, -2.25, 1e-7], 'str': ['', 'a', "it's", '100%', 'a\\b', 'x\ny'],
+    'Decimal': [_dec.Decimal('0'), _dec.Decimal('1.50'), _dec.Decimal('-12.345')],
+    'date': [_dt.date(2020, 1, 2), _dt.date(999, 12, 31), _dt.date(1, 1, 1)],
+    'datetime': [_dt.datetime(2020, 1, 2, 3, 4, 5), _dt.datetime(2020, 1, 2, 3, 4, 5, 123456), _dt.datetime(999, 12, 31, 23, 59, 59, 999999), _dt.datetime(1, 1, 1)],
+    'timedelta': [_dt.timedelta(0), _dt.timedelta(seconds=1), _dt.timedelta(seconds=1, microseconds=500000), _dt.timedelta(days=2, seconds=3, microseconds=4), _dt.timedelta(microseconds=1),
+                  _dt.timedelta(days=-1, microseconds=250000), _dt.timedelta(hours=36)],
+    'bytes': [b'', b'ab', bytes(range(6))],
+}
+
+
+_PL_DB = None
+
+
+def _pl_configs(tier):
+    return [dict(type=t, index=k) for t, vs in PARAM_VALUES.items() for k in range(len(vs))]
+
+
+def _pl_case(cfg, values):
+    def call():
+        import sqlite3
+        from pony.orm.dbproviders import sqlite as sq
+        v = PARAM_VALUES[cfg['type']][cfg['index']]
+        global _PL_DB
+        if _PL_DB is None:
+            from pony import orm as _orm
+            _PL_DB = _orm.Database('sqlite', ':memory:')
+        converter = _PL_DB.provider.get_converter_by_py_type(type(v))          # the converter the translator uses for a parameter of this type
+        bound = converter.py2sql(v)
+        lit = str(sq.SQLiteValue('qmark', v))
+        con = sqlite3.connect(':memory:')
+        row = con.execute('select ? = %s, typeof(?), typeof(%s), ?, %s' % (lit, lit, lit), (bound, bound, bound)).fetchone()
+        return row, repr(bound), lit
+    return Case(call, {}, [])
+
+
+class Bag(object):
+    def __init__(self, **kw): self.__dict__.update(kw)
+
+
+def _pl_spec(cfg, i, path):
+    if path.outcome != 'ret': return False
+    (equal, t_param, t_lit, p, l), bound, lit = path.value
+    if cfg['type'] in ('float', 'timedelta', 'Decimal'):
+        # numbers: the same number up to the last binary digit of a double (the literal goes through a decimal text)
+        return (equal == 1 or abs(float(p) - float(l)) <= 1e-12 * max(1.0, abs(float(l)))) and (t_param == t_lit or {t_param, t_lit} <= {'real', 'integer', 'text'})
+    return equal == 1 and t_param == t_lit
+
+
 CONTRACTS = [
     Contract('Value.quote_str', ['pony.orm.sqlbuilding:Value.quote_str', 'pony.orm.sqlbuilding:Value.__str__', 'pony.orm.dbproviders.sqlite:SQLiteValue.__str__',
                                  'pony.orm.dbproviders.postgres:PGValue.__str__', 'pony.orm.dbproviders.mysql:MySQLValue.__str__'],
@@ -452,4 +504,9 @@ CONTRACTS = [
                                              'pony.orm.sqlbuilding:SQLBuilder.eval_json_path'], _cp_configs, _cp_case,
              [('each_placeholder_receives_the_path_written_at_its_place', _cp_spec)], level='bounded',
              bound='statements with 1 - 2 (thorough: 3) JSON paths of <= 2 items out of 3 constants and 2 variables, at least one variable per path'),
+    Contract('sqlite.parameter_equals_literal', ['pony.orm.dbproviders.sqlite:SQLiteTimedeltaConverter.py2sql', 'pony.orm.dbproviders.sqlite:SQLiteDatetimeConverter.py2sql',
+                                                 'pony.orm.dbproviders.sqlite:SQLiteDateConverter.py2sql', 'pony.orm.dbproviders.sqlite:SQLiteDecimalConverter.py2sql',
+                                                 'pony.orm.dbproviders.sqlite:SQLiteValue.__str__', 'pony.utils.utils:datetime2timestamp'], _pl_configs, _pl_case,
+             [('bound_value_and_inline_literal_denote_the_same_database_value', _pl_spec)], level='bounded',
+             bound='9 Python types, 2 - 7 values each (boundary years, sub-second and negative intervals, quotes, percent, empty), compared inside a real SQLite connection'),
 ]
